@@ -3062,6 +3062,25 @@ impl EncCase {
         if let Some(l) = show_mem(&mem) {
             out.push(l);
         }
+        // Unix addresses must be passed with their canonical length (what std/libc
+        // pass): offsetof(sun_path) + |path| + 1, + 1 + |name| for abstract names,
+        // the bare family for the unnamed address.
+        if let (Some(a), Some(bytes)) = (kv.get("a"), &mem.addr) {
+            let canon = if let Some(h) = a.strip_prefix("path:") {
+                Some(("path", 2 + h.len() / 2 + 1))
+            } else if let Some(h) = a.strip_prefix("abstract:") {
+                Some(("abstract", 3 + if h == "-" { 0 } else { h.len() / 2 }))
+            } else if a == "unnamed" {
+                Some(("unnamed", 2))
+            } else {
+                None
+            };
+            if let Some((kind, n)) = canon {
+                if bytes.len() != n {
+                    self.fail(&format!("C13/encode/unix-address-length/{kind}"), format!("{op}: Unix address {a} passed with length {} instead of {n}", bytes.len()));
+                }
+            }
+        }
         let call = abi_call(op, &s, &mem, &ctx);
         if call != b.posix {
             let sig = self.signature(op, &kv, &call, &b.posix);
